@@ -39,7 +39,9 @@ ASSUMPTIONS = [
     "ppq/mpq (space resave)",
     "a parsed MatchFile may be queried any number of times; with first_note_at_zero the note times are the saved ones minus "
     "the earliest onset (ticks and seconds), pedal times are left open there (space reuse)",
-    "generator preconditions: >= 1 match per alignment; a time signature at the start; signature changes at barlines of "
+    "generator preconditions: >= 1 match per alignment, and >= 1 matched score note that has a duration (the writer orders "
+    "the lines by a performance-to-score time map, which has no point when nothing or only grace notes are matched: "
+    "space graces); a time signature at the start; signature changes at barlines of "
     "bars that hold a note; pickups begin with a note; voices and staves given; ids without '-1'; performed notes of "
     "equal pitch do not overlap; no textually identical pedal events",
 ]
@@ -1267,6 +1269,67 @@ def gen_chords(full):
                     yield c
 
 
+GRACE_COUNTS_Q = [c for c in itertools.product((0, 1, 2), repeat=3) if 1 <= sum(c) <= 2] + [(1, 1, 1)]
+GRACE_COUNTS_T = [c for c in itertools.product((0, 1, 2), repeat=3) if 1 <= sum(c) <= 3]
+
+
+def gen_graces(full, core=False):
+    """partial alignments over grace notes AND their main notes: three consecutive regular notes (two 4/4 bars) with
+    0-2 grace notes before each of them (1-2 grace notes in all, or one before every note; thorough: 1-3 in all),
+    optionally a second regular note (other voice) sounding with one of the three; EVERY score note - regular or grace -
+    is a match or a deletion, all assignments with at least one matched regular note (so the first / a middle / the
+    last matched score position may be matched through grace notes only, through a chord partner only, ...); the
+    performed note of a deleted score note is an insertion; the thorough tier varies one more dimension at a time: the
+    performed notes of deleted notes absent from the performance / a one-unit pickup before the bars (its note always
+    matched) / the alignment list reversed.
+    core=True: the sub-scope enumerated completely in the quick tier whatever the seed (no partner; partner with one
+    grace note in all)"""
+    m = (4, 4)
+    for counts in (GRACE_COUNTS_T if full else GRACE_COUNTS_Q):
+        for partner in (None, 0, 1, 2):
+            if core and partner is not None and sum(counts) > 1:
+                continue
+            for pk in ((False, True) if full else (False,)):
+                off = 2 if pk else 0
+                bars = ([(m, m, None, 2)] if pk else []) + [(m, None if pk else m, None), (m, None, None)]
+                reg = [(off, off + 4), (off + 4, off + 8), (off + 8, off + 16)]
+                sc = mk_score(bars, ([(0, 2)] if pk else []) + reg)
+                # ids of the three regular notes (mk_score numbers the notes by onset)
+                rid = ["s%d" % (i + (1 if pk else 0)) for i in range(3)]
+                free = list(rid)
+                for p, cnt in enumerate(counts):
+                    for g in range(cnt):
+                        sc["notes"].append(note("g%d%d" % (p, g), reg[p][0], reg[p][0], "DF"[g], None, 5, 1, 1, grace=True))
+                        free.append("g%d%d" % (p, g))
+                if partner is not None:
+                    sc["notes"].append(note("c", reg[partner][0], reg[partner][1], "A", None, 3, 2, 1))
+                    free.append("c")
+                regular = set(rid) | {"c"}
+                ap = auto_perf(sc)
+                for labs in itertools.product(("match", "deletion"), repeat=len(free)):
+                    lab = dict(zip(free, labs))
+                    if not any(l == "match" and i in regular for i, l in lab.items()):
+                        continue  # precondition: a matched note with a score duration
+                    for gone in (("insertion", "absent") if full else ("insertion",)):
+                        if gone == "absent" and ("deletion" not in labs or pk):
+                            continue
+                        for order in (("fwd", "rev") if (full and not pk and gone == "insertion") else ("fwd",)):
+                            perf = []
+                            align = []
+                            for pid, pitch, on, off_, vel, sid in ap:
+                                if lab.get(sid, "match") == "match":
+                                    perf.append([pid, pitch, on, off_, vel])
+                                    align.append(["match", sid, pid, None])
+                                else:
+                                    align.append(["deletion", sid, None, None])
+                                    if gone == "insertion":
+                                        perf.append([pid, pitch, on, off_, vel])
+                                        align.append(["insertion", None, pid, None])
+                            if order == "rev":
+                                align = align[::-1]
+                            yield mk_case(sc, align=align, perf=perf)
+
+
 def gen_labels(full, ks=None, max_extra=2):
     """all assignments of {match, deletion} to k<=4 score notes (>=1 match) x 0-2 extra performed notes, each an
     insertion or an ornament of any score note, placed before, between or after the matched notes; alignment list in
@@ -1620,6 +1683,16 @@ def spaces(tier, seed):
     sp.append(Space("chords", lambda: gen_chords(thorough), True,
                     "2-3 simultaneous notes, durations {1,2,4 quarters}^3, 2 onsets, equal/different pitch, match/deletion; "
                     "1-2 grace notes at 3 positions, with/without pickup, all label assignments"))
+    b_gr = ("three consecutive regular notes in two 4/4 bars, 0-2 grace notes before each (%s), optional second regular note "
+            "(other voice) sounding with the 1st/2nd/3rd; every score note (regular, grace, partner) a match or a deletion: all "
+            "assignments with >= 1 matched regular note; deleted notes' performed notes are insertions%s")
+    if thorough:
+        sp.append(Space("graces", lambda: gen_graces(True), True,
+                        b_gr % ("1-3 grace notes in all", "; one more dimension at a time: those performed notes absent / a one-unit pickup / alignment list reversed")))
+    else:
+        sp.append(Space("graces", with_block(lambda: gen_graces(False), lambda: gen_graces(False, core=True), 3, seed), True,
+                        b_gr % ("1-2 grace notes in all, or one before every note", "") + "; complete without partner and for "
+                        "one grace note with partner, + block seed%3 of the rest"))
     sp.append(Space("labels", lambda: gen_labels(True), True,
                     "k in 2..4 score notes, all {match,deletion}^k with >=1 match, 0-2 extra performed notes each an "
                     "insertion or an ornament of any score note, 2 placements, list order fwd/rev, id prefix n/p"))
